@@ -63,7 +63,8 @@ def enum_pc(tier):
 
 def gen_pc_random(rng, tier):
     n = rng.choice([5, 5, 6])
-    _, edges = gen.rand_dag_edges(rng, n, "gnp", p=rng.choice([.3, .5]))
+    # sparse and dense graphs: some orientation rules (Meek R3 and what it enables) only matter on dense 5-node DAGs
+    _, edges = gen.rand_dag_edges(rng, n, "gnp", p=rng.choice([.3, .5, .8, .8, .9]))
     return {"n": n, "edges": [list(e) for e in edges], "variant": rng.choice(["orig", "stable", "parallel"]), "oracle": "callable",
             "perm": rng.randrange(120)}
 
@@ -201,7 +202,7 @@ def run_todag(case, drv):
 
 STREAMS = [
     Stream("pc_exhaustive", enum=enum_pc, run=run_pc),
-    Stream("pc_random", gen_pc_random, run_pc, quick=60, thorough=1500),
+    Stream("pc_random", gen_pc_random, run_pc, quick=400, thorough=4000),
     Stream("todag_exhaustive", enum=enum_todag, run=run_todag),
     Stream("todag_random", gen_todag, run_todag, quick=500, thorough=5000),
 ]
